@@ -32,6 +32,7 @@ type Facts struct {
 	Tables        map[string]interface{} `json:"tables"`        // F9
 	Funcs         map[string]*FuncFacts  `json:"funcs"`         // F4-F8 per function (module-local)
 	ExternalCalls []ExtCall              `json:"external_calls"`
+	Sites         []*Site                `json:"sites"`          // F8
 	Errors        []string               `json:"errors"`
 	Stats         map[string]int         `json:"stats"`
 }
@@ -140,6 +141,10 @@ func main() {
 	tables(byPath)
 	analyseFuncs(pkgs)
 	perLint(pkgs)
+	reachAll, appliesOf := appliesIndex()
+	censusSites(pkgs, reachAll, appliesOf)
+	facts.Sites = sites
+	debugApplies()
 
 	facts.Stats["registrations"] = len(facts.Registrations)
 	facts.Stats["lint_types"] = len(facts.LintTypes)
